@@ -39,6 +39,7 @@ type MethodMeta struct {
 	Extras  []string  `json:"extras,omitempty"` // types of the additional arguments
 	Local   bool      `json:"local"`            // local LS/LD types instead of m.S/m.D
 	Sub     bool      `json:"sub,omitempty"`    // a helper method on the nested types (used as a converter by others)
+	Same    bool      `json:"same,omitempty"`   // md.D on both sides: the caller may pass the same object twice
 	Pre     *HookMeta `json:"pre,omitempty"`
 	Post    *HookMeta `json:"post,omitempty"`
 	TwinOf  string    `json:"twin_of,omitempty"` // this method is the hook-less twin of that one
@@ -273,6 +274,7 @@ func Gen(r *sim.Rng, kind string) (*sim.WorldSpec, *Meta) {
 		h      *HookMeta
 		which  string
 		local  bool
+		same   bool
 		extras []string
 	}
 	var madeHooks []madeHook
@@ -296,6 +298,15 @@ func Gen(r *sim.Rng, kind string) (*sim.WorldSpec, *Meta) {
 		mm.Local = r.Chance(1, 4)
 		if mm.Local && r.Chance(2, 3) {
 			mm.Recv = "r"
+		}
+		// now and then both operands have the same type (a merge / clone method):
+		// in arg style with the source by pointer the caller may then pass the very
+		// same object twice
+		if kind == "normal" && r.Chance(1, 5) {
+			mm.Same, mm.Local, mm.Recv = true, false, ""
+			if r.Chance(2, 3) {
+				mm.Style, mm.SrcPtr = "arg", true
+			}
 		}
 		switch r.Intn(5) {
 		case 4:
@@ -330,8 +341,20 @@ func Gen(r *sim.Rng, kind string) (*sim.WorldSpec, *Meta) {
 		}
 		capable := map[string]bool{}
 		slot := func(prob int) bool { return r.Chance(prob, 100) }
-		if kind == "misfit" {
+		if kind == "misfit" || mm.Same {
 			slot = func(int) bool { return false }
+		}
+		if mm.Same {
+			// the slots whose stubs fit identical field types on both sides
+			if r.Chance(1, 2) {
+				f, c := pickCap(mm.RetErr, "cC", "pC")
+				notes = append(notes, ":conv "+f+" C")
+				capable[f] = c
+			}
+			if mm.RetErr && r.Chance(1, 3) {
+				notes = append(notes, ":conv cR R")
+				capable["cR"] = true
+			}
 		}
 		if slot(55) {
 			f, c := pickCap(mm.RetErr, "cA", "pA")
@@ -454,13 +477,16 @@ func Gen(r *sim.Rng, kind string) (*sim.WorldSpec, *Meta) {
 		if mm.Local {
 			srcT, dstT = "LS", "LD"
 		}
+		if mm.Same {
+			srcT = "md.D"
+		}
 		// hooks
 		mkHook := func(which string) *HookMeta {
 			// now and then a hook that an earlier method already uses is named
 			// again (one function serving several methods), when it fits
 			if r.Chance(1, 3) {
 				for _, mh := range madeHooks {
-					if mh.which == which && mh.local == mm.Local && (!mh.h.RetErr || mm.RetErr) &&
+					if mh.which == which && mh.local == mm.Local && mh.same == mm.Same && (!mh.h.RetErr || mm.RetErr) &&
 						(!mh.h.Extras || strings.Join(mh.extras, ",") == strings.Join(mm.Extras, ",")) && (!mh.h.Imported || !mm.Local) {
 						c := *mh.h
 						return &c
@@ -497,7 +523,7 @@ func Gen(r *sim.Rng, kind string) (*sim.WorldSpec, *Meta) {
 			} else {
 				localHooks.WriteString(text)
 			}
-			madeHooks = append(madeHooks, madeHook{h, which, mm.Local, mm.Extras})
+			madeHooks = append(madeHooks, madeHook{h, which, mm.Local, mm.Same, mm.Extras})
 			return h
 		}
 		if kind != "noerr" && kind != "misfit" {
@@ -700,6 +726,9 @@ func Gen(r *sim.Rng, kind string) (*sim.WorldSpec, *Meta) {
 			}
 			if mm.Sub {
 				srcT, dstT = "ms.Nest", "md.Nest"
+			}
+			if mm.Same {
+				srcT = "md.D"
 			}
 			sp, dp := "", ""
 			if mm.SrcPtr {
